@@ -6,7 +6,7 @@ from xvlib.core import Check
 from xvlib.frontend import AnalysisBroken
 from xvlib.effects import lib_functions, global_names, call_graph, reachable, path_to, lvalue_root, writes
 from xvlib.facts import walk, show, strip_casts
-from rules.c16 import MUTATORS
+from rules.c16 import MUTATORS, transparent_owners
 
 # frozen from the glibc manual (safety annotations); one line of reason each
 MT_UNSAFE = {
@@ -76,15 +76,21 @@ def run(prog, tier):
     if not na:
         chk.ok('no-shared-state', 'alias-resolved stores', 'no store of a thread-safe function reaches a file-scope object through an alias', 'src')
     # (b) MT-unsafe services: reported at the direct call site, with the entry points that reach it
+    seen_mt = set()
     for name in sorted(reach_all & set(funcs)):
         f = funcs[name]
         for callee in sorted(cg.get(name, ())):
             if callee in MT_UNSAFE:
-                entries = [a for a in safe_api if name in reach_of[a]]
                 ln = next((n['ln'] for n in walk(f['body']) if n.get('k') == 'CallExpr' and n.get('callee') == callee), f['ln'])
-                chk.bad('mt-unsafe-call', f['unit'], name, callee, '%s:%d' % (f['rel'], ln),
-                        '%s calls %s (%s); %d thread-safe entry points reach it (%s ...): concurrent calls race on process-wide state' % (
-                            name, callee, MT_UNSAFE[callee], len(entries), ', '.join(entries[:6])))
+                # a call made in a transparent static helper is the call of the function(s) the helper works for
+                for owner in sorted(transparent_owners(funcs, cg, name)):
+                    entries = [a for a in safe_api if owner in reach_of[a]]
+                    if not entries or (owner, callee) in seen_mt:
+                        continue
+                    seen_mt.add((owner, callee))
+                    chk.bad('mt-unsafe-call', funcs[owner]['unit'], owner, callee, '%s:%d' % (f['rel'], ln),
+                            '%s calls %s%s (%s); %d thread-safe entry points reach it (%s ...): concurrent calls race on process-wide state' % (
+                                owner, callee, '' if owner == name else ' through its helper %s' % name, MT_UNSAFE[callee], len(entries), ', '.join(entries[:6])))
             elif callee in MT_ALLOWED:
                 chk.ok('mt-unsafe-call', '%s:%s' % (name, callee), 'allowed: ' + MT_ALLOWED[callee], '%s:%d' % (f['rel'], f['ln']), nontrivial=False)
     for n in safe_api:
